@@ -315,12 +315,46 @@ def save_call_sites():
     return 'list string', '[%s]%%string' % '; '.join('"%s"' % n for n in names)
 
 
+def callbacks_called_inside_update_lock():
+    """modulebase.announceUpdate: the ONLY loop over self.paramCallbacks[pname] (saveParameters is one of these
+    callbacks for persistent='auto') lies inside the single top-level `with self.updateLock:` statement of the
+    function, and nothing of the function body lies outside of that with statement.  updateLock is the only thing
+    that serialises the saves of one module (one fixed temporary file name, no lock in __save_params)"""
+    f = find_func(find_class(parse(MB), 'Module'), 'announceUpdate')
+    body = [n for n in f.body if not (isinstance(n, ast.Expr) and isinstance(n.value, ast.Constant)
+                                      and isinstance(n.value.value, str))]
+    if len(body) != 1 or not isinstance(body[0], ast.With):
+        raise Shape('announceUpdate: expected the body to be one `with self.updateLock:` statement')
+    w = body[0]
+    if len(w.items) != 1 or not is_self_attr(w.items[0].context_expr, 'updateLock'):
+        raise Shape('announceUpdate: expected `with self.updateLock:`')
+    loops = [lp for lp in walk_type(f, ast.For) if 'paramCallbacks' in _norm(lp.iter)]
+    inside = [lp for lp in walk_type(w, ast.For) if 'paramCallbacks' in _norm(lp.iter)]
+    mentions = sum(_norm(n).count('paramCallbacks') for n in body)
+    ok = len(loops) == 1 and len(inside) == 1 and _norm(loops[0].iter) == 'self.paramCallbacks[pname]' and \
+        mentions == 1
+    # no lock of its own in the save path: then updateLock is what the theorem rests on
+    ok = ok and 'Lock' not in _norm(_save()) and 'Lock' not in _norm(find_func(_mixin(), 'saveParameters'))
+    return 'bool', cbool(ok)
+
+
+def update_lock_is_reentrant_lock():
+    """Module.__init__ binds self.updateLock to threading.RLock() (one lock per module)"""
+    cls = find_class(parse(MB), 'Module')
+    found = []
+    for a in walk_type(cls, ast.Assign):
+        if any(is_self_attr(t, 'updateLock') for t in a.targets):
+            found.append(_norm(a.value))
+    return 'bool', cbool(found == ['threading.RLock()'])
+
+
 FACTS = [change_detection, pdata_assigned_after_rename, writes_go_to_tmp, only_rename_writes_target,
          target_touched_only_by_final_rename, save_call_sites,
          rename_after_closed_with_block, remove_tmp_in_finally, unreadable_file_is_empty,
          nonobject_document_is_unreadable, entries_imported_individually, entries_validated_and_exportable,
          cfg_precedes_file, given_set_for_configured_values,
-         save_deferred_while_writes_pending, init_saves_after_loading, callback_exceptions_swallowed]
+         save_deferred_while_writes_pending, init_saves_after_loading, callback_exceptions_swallowed,
+         callbacks_called_inside_update_lock, update_lock_is_reentrant_lock]
 
 FINGERPRINTS = {
     'PersistentMixin.__init__': lambda: find_func(_mixin(), '__init__'),
